@@ -677,6 +677,41 @@ pub fn apply_storage_op(ex: &mut Exec, uid: u32, kind: &OpKind) -> R {
             });
             vec!["C09"]
         }
+        OpKind::EntryHuge { slot, payload } => {
+            let s = *slot as usize;
+            let kind = ex.model.kinds[s];
+            if kind.inner == crate::comps::Inner::DefaultVec {
+                // would fill 2^24 default slots
+                return ex.skip();
+            }
+            let (id, panicked) = ex.slots[s].entry_huge(ex.w(), *payload);
+            ex.stats.values_created += 1;
+            ex.stats.probe("mask_update_unwound_after_raw_insert");
+            if !panicked {
+                // the mask accepted the index after all: then it simply is a component without an
+                // entity (the raw-index API does not ask for one)
+                let v = (id, zp(&ex.model, *slot, *payload));
+                ex.model.comps[s].insert(crate::comps::HUGE_INDEX, v);
+                if kind.tracked() {
+                    let t = &mut ex.model.track[s];
+                    if t.reader && t.emission {
+                        t.expected.push(crate::wmodel::ExpEv { ev: crate::comps::Ev::Ins(crate::comps::HUGE_INDEX), must: true });
+                        t.expected.push(crate::wmodel::ExpEv { ev: crate::comps::Ev::Mod(crate::comps::HUGE_INDEX), must: false });
+                    }
+                }
+                return ex.post(&["C04"]);
+            }
+            // the value is taken out again and destroyed exactly once; nothing else changes
+            ex.model.note_destroyed(s, (id, zp(&ex.model, *slot, *payload)));
+            if kind.tracked() {
+                let t = &mut ex.model.track[s];
+                if t.reader && t.emission {
+                    t.expected.push(crate::wmodel::ExpEv { ev: crate::comps::Ev::Ins(crate::comps::HUGE_INDEX), must: true });
+                    t.expected.push(crate::wmodel::ExpEv { ev: crate::comps::Ev::Rem(crate::comps::HUGE_INDEX), must: true });
+                }
+            }
+            vec!["C08", "C04"]
+        }
         OpKind::ChangeSet { pairs, consume } => {
             changeset_op(ex, pairs, *consume)?;
             vec!["C08"]
